@@ -48,10 +48,41 @@ func extractSubs() {
 		fail("%s: method SubscriptionManager.NewSubscription", file)
 	}
 
+	// intValue: an integer literal, or an identifier bound to one by a `const` of this file
+	intValue := func(e ast.Expr) (int, bool) {
+		if v, err := strconv.Atoi(src(e)); err == nil {
+			return v, true
+		}
+		id, ok := e.(*ast.Ident)
+		if !ok || f == nil {
+			return 0, false
+		}
+		val, found := 0, false
+		ast.Inspect(f, func(n ast.Node) bool {
+			gd, ok := n.(*ast.GenDecl)
+			if !ok || gd.Tok != token.CONST {
+				return true
+			}
+			for _, sp := range gd.Specs {
+				vs := sp.(*ast.ValueSpec)
+				for i, nm := range vs.Names {
+					if nm.Name == id.Name && i < len(vs.Values) {
+						if v, err := strconv.Atoi(src(vs.Values[i])); err == nil {
+							val, found = v, true
+						}
+					}
+				}
+			}
+			return false
+		})
+		return val, found
+	}
+
 	// --- buffer sizes -------------------------------------------------------
 	chanCap, chanOK, queueBuf, queueOK := 0, false, 0, false
-	if newSub != nil {
-		ast.Inspect(newSub.Body, func(n ast.Node) bool {
+	if f != nil {
+		// the `newSubscription{...}` literal, wherever in the file it is built
+		ast.Inspect(f, func(n ast.Node) bool {
 			kv, ok := n.(*ast.KeyValueExpr)
 			if !ok {
 				return true
@@ -63,13 +94,13 @@ func extractSubs() {
 			}
 			switch {
 			case key == "ntfnChan" && src(c.Fun) == "make" && len(c.Args) == 2:
-				if v, err := strconv.Atoi(src(c.Args[1])); err == nil {
+				if v, ok := intValue(c.Args[1]); ok {
 					chanCap, chanOK = v, true
 				}
 			case key == "ntfnChan" && src(c.Fun) == "make" && len(c.Args) == 1:
 				chanCap, chanOK = 0, true // unbuffered
 			case key == "ntfnQueue" && strings.HasSuffix(src(c.Fun), "NewConcurrentQueue") && len(c.Args) == 1:
-				if v, err := strconv.Atoi(src(c.Args[0])); err == nil {
+				if v, ok := intValue(c.Args[0]); ok {
 					queueBuf, queueOK = v, true
 				}
 			}
@@ -249,8 +280,130 @@ func extractSubs() {
 	}
 	boolean("pushBlocking", blockingSend(funcDecl(f, "SubscriptionManager", "notifySubscriber"), "sub.ntfnQueue.ChanIn()"),
 		"notifySubscriber's send into the client's queue is in a select without `default` (never dropped while the client and the manager are live)")
-	boolean("forwardBlocking", blockingSend(newSub, "sub.ntfnChan"),
-		"the forwarder's send into the client's channel is in a select without `default`")
+	// The forwarder is the goroutine NewSubscription starts: `go func(){ body }()`
+	// or, equivalently, `go m.helper(sub)` / `go helper(sub)` with the body in a
+	// function or method of the same file.  Follow the `go` to the body and look
+	// there (and in same-file helpers it calls) for the send into `<x>.ntfnChan`,
+	// whatever the subscription variable is called.
+	goBodies := func(fd *ast.FuncDecl) []ast.Node {
+		var out []ast.Node
+		if fd == nil || f == nil {
+			return nil
+		}
+		byName := map[string][]*ast.FuncDecl{}
+		for _, d := range f.Decls {
+			if g, ok := d.(*ast.FuncDecl); ok && g.Body != nil {
+				byName[g.Name.Name] = append(byName[g.Name.Name], g)
+			}
+		}
+		var follow func(body ast.Node, depth int)
+		follow = func(body ast.Node, depth int) {
+			out = append(out, body)
+			if depth == 0 {
+				return
+			}
+			// same-file helpers called from the goroutine's body
+			for _, c := range calls(body) {
+				name := strings.TrimPrefix(c.name, "defer ")
+				if i := strings.LastIndex(name, "."); i >= 0 {
+					name = name[i+1:]
+				}
+				if g := byName[name]; len(g) == 1 && g[0] != fd && g[0].Body != body {
+					follow(g[0].Body, depth-1)
+				}
+			}
+		}
+		ast.Inspect(fd.Body, func(n ast.Node) bool {
+			g, ok := n.(*ast.GoStmt)
+			if !ok {
+				return true
+			}
+			switch fun := g.Call.Fun.(type) {
+			case *ast.FuncLit:
+				follow(fun.Body, 2)
+			default:
+				name := src(fun)
+				if i := strings.LastIndex(name, "."); i >= 0 {
+					name = name[i+1:]
+				}
+				if t := byName[name]; len(t) == 1 && t[0] != fd {
+					follow(t[0].Body, 2)
+				}
+			}
+			return false
+		})
+		return out
+	}
+	fwdSends, fwdOK := 0, true
+	seenSel := map[*ast.SelectStmt]bool{}
+	for _, body := range goBodies(newSub) {
+		ast.Inspect(body, func(n ast.Node) bool {
+			switch v := n.(type) {
+			case *ast.SelectStmt:
+				if seenSel[v] {
+					return true
+				}
+				hasSend, hasDefault := false, false
+				for _, cl := range v.Body.List {
+					cc := cl.(*ast.CommClause)
+					if cc.Comm == nil {
+						hasDefault = true
+						continue
+					}
+					if snd, isSend := cc.Comm.(*ast.SendStmt); isSend {
+						if se, ok := snd.Chan.(*ast.SelectorExpr); ok && se.Sel.Name == "ntfnChan" {
+							hasSend = true
+						}
+					}
+				}
+				if hasSend {
+					seenSel[v] = true
+					fwdSends++
+					if hasDefault {
+						fwdOK = false
+					}
+				}
+			}
+			return true
+		})
+	}
+	// a send into ntfnChan that is not a select case (bare `x.ntfnChan <- n`) is blocking too,
+	// but it cannot be interrupted by quit: count it so that the fact flips
+	bareSends := 0
+	if f != nil {
+		inSelect := map[*ast.SendStmt]bool{}
+		ast.Inspect(f, func(n ast.Node) bool {
+			if cc, ok := n.(*ast.CommClause); ok {
+				if snd, ok := cc.Comm.(*ast.SendStmt); ok {
+					inSelect[snd] = true
+				}
+			}
+			return true
+		})
+		ast.Inspect(f, func(n ast.Node) bool {
+			if snd, ok := n.(*ast.SendStmt); ok && !inSelect[snd] {
+				if se, ok := snd.Chan.(*ast.SelectorExpr); ok && se.Sel.Name == "ntfnChan" {
+					bareSends++
+				}
+			}
+			return true
+		})
+	}
+	boolean("forwardBlocking", fwdSends == 1 && fwdOK && bareSends == 0,
+		"the goroutine started by NewSubscription (inline literal or a same-file function/method it `go`es) has exactly one send into the client's channel, in a select without `default`")
+	// every send into a client's channel, anywhere in the file, is that one
+	allSends := 0
+	if f != nil {
+		ast.Inspect(f, func(n ast.Node) bool {
+			if snd, ok := n.(*ast.SendStmt); ok {
+				if se, ok := snd.Chan.(*ast.SelectorExpr); ok && se.Sel.Name == "ntfnChan" {
+					allSends++
+				}
+			}
+			return true
+		})
+	}
+	nat("ntfnChanSendSites", allSends, true, "number of send statements into a `.ntfnChan` in blockntfns/manager.go (the forwarder's)")
 
 	// cancel
 	cancelOnce := false
